@@ -23,6 +23,7 @@ Step(ev) ==
       [] ev.e = "ShutdownCall" -> v' = CallEff /\ UNCHANGED viol
       [] ev.e = "ShutdownRet" -> v' = [v EXCEPT !.ret = ev.err] /\ Judge(ev, RetViol(ev.err))
       [] ev.e = "Tracked" -> Judge(ev, TrackedViol(ev.n, ev.m)) /\ UNCHANGED v
+      [] ev.e = "ResumeCheck" -> Judge(ev, IF ev.n = 0 \/ ev.m = 0 THEN {"C13.accepting_did_not_resume_after_descriptor_exhaustion"} ELSE {}) /\ UNCHANGED v
       [] ev.e = "Panic" -> Judge(ev, {"C13.panic"}) /\ UNCHANGED v
       [] ev.e = "Quiescent" -> Judge(ev, IF ev.err # "" THEN {} ELSE QuiescentViol(ev.n)) /\ UNCHANGED v
       [] OTHER -> UNCHANGED <<v, viol>>
